@@ -1,41 +1,71 @@
 #!/venv/bin/python
-"""Differential test: Lean model ops `discover` / `visits` / `serialize` (JaqalModel/Model/WalkOps.lean)
-against the REAL jaqalpaq code (DiscoverSubcircuits, run_jaqal_circuit's TraceVisitor walk, TraceSerializer).
+"""Differential test + direct oracles for subcircuit discovery (C12), the trace walker (C08) and the
+trace serialiser (C03, serialisation half).
 
-usage: walk_diff.py [--model EXE] [--seed S] [--n N] [--timeout SEC]
-  EXE = a line-protocol driver exposing the three ops (default /verif/lean/.lake/build/bin/jaqal-model).
-Exit status 0 iff zero mismatches and zero hangs of the real code.
+corr   : Lean model ops `discover` / `visits` / `serialize` (JaqalModel/Model/WalkOps.lean) vs the REAL jaqalpaq
+         code (DiscoverSubcircuits, run_jaqal_circuit's TraceVisitor walk, TraceSerializer).
+oracle : the properties evaluated on the real code alone, against small independent Python references written
+         from the property text (no Lean, no jaqalpaq logic):
+           C12_accept_iff_bracketed  real acceptance  <=> bracket checker over the flat token sequence accepts,
+                                     and the traces returned are the flat-order prepare/measure pairs
+           C12_error_class           a rejection is a JaqalError whose class names a violated rule
+           C08_visits                [ro.subcircuit.index for ro in readouts] == reference unrolling; readout
+                                     indices 0,1,2,...; per-subcircuit readouts/frequencies count its own readouts
+           C08_terminates            the real code returns within the alarm
+           C03_serialize             TraceSerializer(trace) == reference segment of the unrolled program
+
+Importable (`run`, `replay`); CLI: walk_diff.py [--model EXE] [--seed S] [--n N] [--thorough]
 """
 import os, sys, json, random, signal, subprocess, argparse
-os.environ["JAQALPAQ_RUN_EMULATOR"] = "1"
-sys.path.insert(0, "/verif/notes/probes")
-import warnings; warnings.filterwarnings("ignore")
-from gates import GI
-from jaqalpaq.parser import parse_jaqal_string
-from jaqalpaq.emulator import run_jaqal_circuit
-from jaqalpaq.core.algorithm.walkers import DiscoverSubcircuits, TraceSerializer
-from jaqalpaq.error import JaqalError
 
+DEFAULT_DRIVER = "/verif/lean/.lake/build/bin/jaqal-model"
 NQ = 4
 ORD = [("X", q) for q in range(NQ)] + [("H", q) for q in range(NQ)]   # payload id -> (name, qubit)
+_real = {}
 
-def PI(t): return parse_jaqal_string(t, inject_pulses=GI, autoload_pulses=False)
 
-class Hang(Exception): pass
-def _alarm(*a): raise Hang()
-signal.signal(signal.SIGALRM, _alarm)
+def _load():
+    """import jaqalpaq lazily (no work at import time)"""
+    if _real:
+        return _real
+    os.environ["JAQALPAQ_RUN_EMULATOR"] = "1"
+    if "/verif/notes/probes" not in sys.path:
+        sys.path.insert(0, "/verif/notes/probes")
+    import warnings
+    warnings.filterwarnings("ignore")
+    from gates import GI
+    from jaqalpaq.parser import parse_jaqal_string
+    from jaqalpaq.emulator import run_jaqal_circuit
+    from jaqalpaq.core.algorithm.walkers import DiscoverSubcircuits, TraceSerializer
+    from jaqalpaq.error import JaqalError
+    _real.update(GI=GI, parse=parse_jaqal_string, run=run_jaqal_circuit, Disc=DiscoverSubcircuits,
+                 Ser=TraceSerializer, JaqalError=JaqalError)
+    return _real
+
+
+class Hang(Exception):
+    pass
+
+
+def _alarm(*a):
+    raise Hang()
+
+
+# ---------------------------------------------------------------- generation
+# items: ["g", "P"|"M"|<id>] | ["loop", n, items] | ["pblk", items]   (pblk = `< { ... } >`: two address levels)
 
 def gen_items(rng, depth, maxdepth):
     items = []
     for _ in range(rng.randint(0, 4)):
         k = rng.random()
-        if k < 0.27: items.append(("g", "P"))
-        elif k < 0.52: items.append(("g", "M"))
-        elif k < 0.66: items.append(("g", rng.randrange(len(ORD))))
+        if k < 0.27: items.append(["g", "P"])
+        elif k < 0.52: items.append(["g", "M"])
+        elif k < 0.66: items.append(["g", rng.randrange(len(ORD))])
         elif depth < maxdepth:
-            if k < 0.86: items.append(("loop", rng.choice([0, 0, 1, 1, 2, 3]), gen_items(rng, depth + 1, maxdepth)))
-            else: items.append(("pblk", gen_items(rng, depth + 1, maxdepth)))   # < { ... } > (a loop directly inside < > is not parseable)
+            if k < 0.86: items.append(["loop", rng.choice([0, 0, 1, 1, 2, 3]), gen_items(rng, depth + 1, maxdepth)])
+            else: items.append(["pblk", gen_items(rng, depth + 1, maxdepth)])   # a loop directly inside < > is not parseable
     return items
+
 
 def gen_biased(rng, depth, maxdepth, st):
     """Flat-order aware generator: mostly keeps the prepare/measure discipline (st[0] = a subcircuit is open)."""
@@ -52,11 +82,23 @@ def gen_biased(rng, depth, maxdepth, st):
                 g = "P" if ok else rng.choice(["M", 0])
             if g == "P": st[0] = True
             elif g == "M": st[0] = False
-            items.append(("g", g))
+            items.append(["g", g])
         elif depth < maxdepth:
-            if k < 0.88: items.append(("loop", rng.choice([0, 1, 2, 2, 3]), gen_biased(rng, depth + 1, maxdepth, st)))
-            else: items.append(("pblk", gen_biased(rng, depth + 1, maxdepth, st)))
+            if k < 0.88: items.append(["loop", rng.choice([0, 1, 2, 2, 3]), gen_biased(rng, depth + 1, maxdepth, st)])
+            else: items.append(["pblk", gen_biased(rng, depth + 1, maxdepth, st)])
     return items
+
+
+P, M, G = ["g", "P"], ["g", "M"], ["g", 0]
+CORNERS = [
+    [P, ["loop", 2, [P, M]]], [P, ["loop", 2, [M]]], [P, ["loop", 2, [G, P]], M], [P, ["loop", 0, [M]]],
+    [["loop", 0, [P]], G, M], [["loop", 0, [P, M]]], [["loop", 0, [P, M]], P, M], [P, ["loop", 0, [P, M]], M],
+    [["loop", 3, [["loop", 0, [P, M]], P, G, M]]], [["loop", 2, [P, ["loop", 3, [G]], M]]],
+    [P, ["loop", 1, [M, P]], M], [P, ["loop", 2, [["loop", 1, [M]]]]], [P, ["pblk", [G, M]], P],
+    [["loop", 2, [P]], ["loop", 2, [G]], M], [], [P], [M], [G],
+    [P, ["loop", 2, [P, M, P]], M], [P, ["loop", 2, [["loop", 2, [P, M]]]]], [P, ["loop", 3, [G, ["pblk", [P, G]]]], G, M],
+]
+
 
 def jq(items):
     out = []
@@ -68,6 +110,11 @@ def jq(items):
         else: out.append("< {\n" + jq(it[1]) + "\n} >")
     return "\n".join(out)
 
+
+def src_of(items):
+    return f"register r[{NQ}]\n" + jq(items) + "\n"
+
+
 def mj(items):
     out = []
     for it in items:
@@ -76,11 +123,89 @@ def mj(items):
         else: out.append({"b": [{"b": mj(it[1]), "par": False}], "par": True})
     return out
 
+
+# ---------------------------------------------------------------- independent references (property text only)
+
+def flat_tokens(items, addr, out):
+    """flat order with loop brackets; gates carry their address (pblk adds two levels, a loop one)"""
+    for i, it in enumerate(items):
+        a = addr + [i]
+        if it[0] == "g": out.append(("g", it[1], a))
+        elif it[0] == "loop":
+            out.append(("[", it[1])); flat_tokens(it[2], a, out); out.append(("]",))
+        else: flat_tokens(it[1], a + [0], out)
+    return out
+
+
+def ref_bracket(toks):
+    """C12 text as a checker. -> ("ok", pairs) | ("err", set of violated rule classes at the first violation)"""
+    is_open = None            # start address of the open subcircuit
+    stack = []                # [count, the open subcircuit was opened before this loop body began]
+    pairs = []
+    for t in toks:
+        if t[0] == "[": stack.append([t[1], is_open is not None])
+        elif t[0] == "]": stack.pop()
+        elif t[1] == "P":
+            is_open = t[2]
+            for f in stack: f[1] = False
+        elif t[1] == "M":
+            if is_open is None: return ("err", "measure-without-prepare")
+            if any(n > 1 and before for n, before in stack): return ("err", "m->p-in-loop")
+            pairs.append((is_open, t[2])); is_open = None
+            for f in stack: f[1] = False
+        else:
+            if is_open is None: return ("err", "gate-outside")
+    return ("ok", pairs)
+
+
+def ref_violations(toks):
+    """all rule classes violated anywhere (for the error-class oracle: the real code may report a later one)"""
+    v = set(); is_open = False; stack = []
+    for t in toks:
+        if t[0] == "[": stack.append([t[1], is_open])
+        elif t[0] == "]": stack.pop()
+        elif t[1] == "P":
+            is_open = True
+            for f in stack: f[1] = False
+        elif t[1] == "M":
+            if not is_open: v.add("measure-without-prepare")
+            elif any(n > 1 and before for n, before in stack): v.add("m->p-in-loop")
+            is_open = False
+            for f in stack: f[1] = False
+        elif not is_open: v.add("gate-outside")
+    return v
+
+
+def ref_unroll(items, addr, once_prefix=None):
+    """executed gate occurrences (gate, address); a loop whose address is a prefix of once_prefix runs once"""
+    out = []
+    for i, it in enumerate(items):
+        a = addr + [i]
+        if it[0] == "g": out.append((it[1], a))
+        elif it[0] == "loop":
+            body = ref_unroll(it[2], a, once_prefix)
+            if once_prefix is not None and once_prefix[:len(a)] == a: out += body
+            else: out += body * max(it[1], 0)
+        else: out += ref_unroll(it[1], a + [0], once_prefix)
+    return out
+
+
+def ref_visits(items, starts):
+    return [starts.index(a) for g, a in ref_unroll(items, []) if a in starts]
+
+
+def ref_segment(items, start, end):
+    return [str(g) for g, a in ref_unroll(items, [], once_prefix=start) if start <= a <= end]
+
+
+# ---------------------------------------------------------------- the real code
+
 def errclass(msg):
     if "gates must follow" in msg: return "gate-outside"
     if "must follow a measure_all" in msg: return "measure-without-prepare"
     if "not supported in loops" in msg: return "m->p-in-loop"
     return "OTHER:" + msg
+
 
 def gate_tok(g):
     if g.name == "prepare_all": return "P"
@@ -88,110 +213,181 @@ def gate_tok(g):
     q = list(g.parameters.values())[0]
     return str(ORD.index((g.name, q.alias_index)))
 
-def real(src, timeout):
-    """-> dict(discover=..., visits=..., serialize=...)"""
+
+def real(items, timeout=5):
+    """-> dict(discover, serialize, visits, nsub, c08_internal) or {"hang": True}"""
+    R = _load()
     res = {}
+    old = signal.signal(signal.SIGALRM, _alarm)
     signal.alarm(timeout)
     try:
-        c = PI(src)
+        c = R["parse"](src_of(items), inject_pulses=R["GI"], autoload_pulses=False)
         try:
-            trs = DiscoverSubcircuits().visit(c)
+            trs = R["Disc"]().visit(c)
             res["discover"] = {"ok": [[[str(x) for x in t.start], [str(x) for x in t.end]] for t in trs]}
-        except JaqalError as e:
+        except R["JaqalError"] as e:
             res["discover"] = {"err": errclass(str(e))}
             trs = None
         if trs is not None:
             try:
-                res["serialize"] = [[gate_tok(g) for g in TraceSerializer(t).visit(c)] for t in trs]
+                res["serialize"] = [[gate_tok(g) for g in R["Ser"](t).visit(c)] for t in trs]
             except Hang: raise
             except Exception as e:
                 res["serialize"] = "raise " + type(e).__name__
         try:
-            r = run_jaqal_circuit(c)
+            r = R["run"](c)
             res["visits"] = [str(ro.subcircuit.index) for ro in r.readouts]
             res["nsub"] = len(r.subcircuits)
-            # C08_indices: readout indices 0,1,2,...; per-subcircuit frequencies count own readouts
-            assert [ro.index for ro in r.readouts] == list(range(len(r.readouts)))
+            ok = [ro.index for ro in r.readouts] == list(range(len(r.readouts)))
             for k, sc in enumerate(r.subcircuits):
-                assert sc.index == k
                 own = [ro for ro in r.readouts if ro.subcircuit is sc]
-                assert sc.readouts == own, (sc.readouts, own)
-                assert int(round(sum(sc.relative_frequency_by_int))) == len(own)
-        except JaqalError as e:
+                ok = ok and sc.index == k and sc.readouts == own and int(round(sum(sc.relative_frequency_by_int))) == len(own)
+            res["c08_internal"] = bool(ok)
+        except R["JaqalError"] as e:
             res["visits"] = {"err": errclass(str(e))}
         except Hang: raise
     except Hang:
-        res["hang"] = True
+        res = {"hang": True}
     finally:
         signal.alarm(0)
+        signal.signal(signal.SIGALRM, old)
     return res
+
+
+def model_batch(driver, op, bodies):
+    lines = "\n".join(json.dumps({"op": op, "body": b}) for b in bodies) + "\n"
+    out = subprocess.run([driver], input=lines, capture_output=True, text=True).stdout.split("\n")
+    out = [json.loads(l) for l in out if l.strip()]
+    assert len(out) == len(bodies), (op, len(out), len(bodies))
+    return [o.get("out", o) for o in out]
+
+
+# ---------------------------------------------------------------- one case
+
+def check_case(items, md, mv, ms, timeout, corr, oracle, dist):
+    case = {"items": items, "src": src_of(items)}
+    toks = flat_tokens(items, [], [])
+    r = real(items, timeout)
+
+    def dis(op, model, impl):
+        corr[op]["disagreements"].append({"case": case, "model": model, "impl": impl})
+
+    def fail(name, detail):
+        oracle[name]["failures"].append({"case": case, "detail": detail})
+
+    for op in corr: corr[op]["cases"] += 1
+    oracle["C08_terminates"]["cases"] += 1
+    if r.get("hang"):
+        dist["hang"] = dist.get("hang", 0) + 1
+        fail("C08_terminates", f"real code still running after {timeout}s")
+        dis("visits", mv, "hang")
+        return
+    # ---- oracles on the real code alone
+    ref = ref_bracket(toks)
+    oracle["C12_accept_iff_bracketed"]["cases"] += 1
+    if "ok" in r["discover"]:
+        want = [[[str(x) for x in s], [str(x) for x in e]] for s, e in ref[1]] if ref[0] == "ok" else None
+        if r["discover"]["ok"] != want:
+            fail("C12_accept_iff_bracketed", f"real accepts with {r['discover']['ok']}, reference: {ref}")
+    else:
+        oracle["C12_error_class"]["cases"] += 1
+        if ref[0] == "ok":
+            fail("C12_accept_iff_bracketed", f"real rejects ({r['discover']['err']}), reference accepts")
+        elif r["discover"]["err"] not in ref_violations(toks):
+            fail("C12_error_class", f"real class {r['discover']['err']}, violated rules {sorted(ref_violations(toks))}")
+        if r["visits"] != r["discover"]:
+            fail("C12_error_class", f"run_jaqal_circuit: {r['visits']} but discovery: {r['discover']}")
+    if "ok" in r["discover"] and ref[0] == "ok":
+        starts = [s for s, e in ref[1]]
+        oracle["C08_visits"]["cases"] += 1
+        want = [str(k) for k in ref_visits(items, starts)]
+        if r["visits"] != want or r.get("nsub") != len(starts) or not r.get("c08_internal"):
+            fail("C08_visits", f"real {r['visits']} (nsub {r.get('nsub')}, internal {r.get('c08_internal')}), reference {want}")
+        oracle["C03_serialize"]["cases"] += 1
+        wantser = [ref_segment(items, s, e) for s, e in ref[1]]
+        if r["serialize"] != wantser:
+            fail("C03_serialize", f"real {r['serialize']}, reference {wantser}")
+    # ---- model vs real
+    exp = {"err": md["err"]} if "err" in md else {"ok": md["ok"]}
+    if exp != r["discover"]: dis("discover", exp, r["discover"])
+    if "err" in md:
+        dist[md["err"]] = dist.get(md["err"], 0) + 1
+        if r["visits"] != {"err": md["err"]}: dis("visits", mv, r["visits"])
+        if mv.get("spec_err") is None: dis("discover", "model: rule accepts but discover rejects", None)
+        return
+    dist["accepted"] = dist.get("accepted", 0) + 1
+    dist["traces"] = dist.get("traces", 0) + len(md["ok"])
+    if md["pairs"] != md["ok"] or md["bracketed"] is not True: dis("discover", "model: discover vs pairs/Bracketed " + json.dumps(md), None)
+    if mv["visits"] != r["visits"]: dis("visits", mv["visits"], r["visits"])
+    elif not (mv["visits"] == mv["spec"] == mv["exec"]): dis("visits", "model: visit vs spec " + json.dumps(mv), None)
+    if isinstance(r["visits"], list):
+        dist["visits"] = dist.get("visits", 0) + len(r["visits"])
+        if any(it for it in toks if it[0] == "[" and it[1] <= 0): dist["accepted_with_zero_loop"] = dist.get("accepted_with_zero_loop", 0) + 1
+    if ms["ok"] != r.get("serialize"): dis("serialize", ms["ok"], r.get("serialize"))
+    elif ms["ok"] != ms["spec"]: dis("serialize", "model: serialize vs segment " + json.dumps(ms), None)
+
+
+def run(seed: int, n: int, driver: str = DEFAULT_DRIVER, thorough: bool = False) -> dict:
+    rng = random.Random(seed)
+    maxdepth = 4 if thorough else 3
+    if thorough: n = n * 5
+    timeout = 5
+    progs = [json.loads(json.dumps(p)) for p in CORNERS]
+    progs += [gen_items(rng, 0, maxdepth) if i % 3 == 0 else gen_biased(rng, 0, maxdepth, [False]) for i in range(n)]
+    bodies = [mj(p) for p in progs]
+    MD = model_batch(driver, "discover", bodies)
+    MV = model_batch(driver, "visits", bodies)
+    MS = model_batch(driver, "serialize", bodies)
+    corr = {op: {"cases": 0, "disagreements": []} for op in ("discover", "visits", "serialize")}
+    oracle = {k: {"cases": 0, "failures": []} for k in
+              ("C12_accept_iff_bracketed", "C12_error_class", "C08_visits", "C08_terminates", "C03_serialize")}
+    dist = {}
+    for p, md, mv, ms in zip(progs, MD, MV, MS):
+        check_case(p, md, mv, ms, timeout, corr, oracle, dist)
+    for d in corr.values(): d["disagreements"] = d["disagreements"][:20]
+    for d in oracle.values(): d["failures"] = d["failures"][:20]
+    def ntok(items): return sum(1 if it[0] == "g" else ntok(it[-1]) for it in items)
+    nontrivial = len({json.dumps(p) for p in progs if ntok(p) >= 3})
+    dist["cases"] = len(progs)
+    dist["with_loop"] = sum(1 for p in progs if "loop" in json.dumps(p))
+    return {"corr": corr, "oracle": oracle, "distribution": dist,
+            "samples": [{"items": p, "src": src_of(p)} for p in progs[len(CORNERS):len(CORNERS) + 5]],
+            "nontrivial": nontrivial}
+
+
+def replay(case: dict, driver: str = DEFAULT_DRIVER) -> dict:
+    items = case["items"]
+    b = [mj(items)]
+    md, mv, ms = (model_batch(driver, op, b)[0] for op in ("discover", "visits", "serialize"))
+    corr = {op: {"cases": 0, "disagreements": []} for op in ("discover", "visits", "serialize")}
+    oracle = {k: {"cases": 0, "failures": []} for k in
+              ("C12_accept_iff_bracketed", "C12_error_class", "C08_visits", "C08_terminates", "C03_serialize")}
+    check_case(items, md, mv, ms, 5, corr, oracle, {})
+    fails = [f"{k}: {f['detail']}" for k, d in oracle.items() for f in d["failures"]]
+    diss = [f"{k}: model {x['model']} impl {x['impl']}" for k, d in corr.items() for x in d["disagreements"]]
+    return {"model": {"discover": md, "visits": mv, "serialize": ms}, "impl": real(items),
+            "oracle_ok": not fails, "detail": "; ".join(fails + diss) or "ok"}
+
 
 def main():
     ap = argparse.ArgumentParser()
-    ap.add_argument("--model", default="/verif/lean/.lake/build/bin/jaqal-model")
+    ap.add_argument("--model", default=DEFAULT_DRIVER)
     ap.add_argument("--seed", type=int, default=1)
     ap.add_argument("--n", type=int, default=4000)
-    ap.add_argument("--timeout", type=int, default=5)
-    ap.add_argument("--maxdepth", type=int, default=3)
+    ap.add_argument("--thorough", action="store_true")
     a = ap.parse_args()
-    rng = random.Random(a.seed)
-    progs = [gen_items(rng, 0, a.maxdepth) if i % 3 == 0 else gen_biased(rng, 0, a.maxdepth, [False]) for i in range(a.n)]
-    # a few hand-written corner cases first
-    P, M, G = ("g", "P"), ("g", "M"), ("g", 0)
-    progs = [
-        [P, ("loop", 2, [P, M])], [P, ("loop", 2, [M])], [P, ("loop", 2, [G, P]), M], [P, ("loop", 0, [M])],
-        [("loop", 0, [P]), G, M], [("loop", 0, [P, M])], [("loop", 0, [P, M]), P, M], [P, ("loop", 0, [P, M]), M],
-        [("loop", 3, [("loop", 0, [P, M]), P, G, M])], [("loop", 2, [P, ("loop", 3, [G]), M])],
-        [P, ("loop", 1, [M, P]), M], [P, ("loop", 2, [("loop", 1, [M])])], [P, ("pblk", [G, M]), P],
-        [("loop", 2, [P]), ("loop", 2, [G]), M], [], [P], [M], [G],
-    ] + progs
-    lines = []
-    for p in progs:
-        b = mj(p)
-        for op in ("discover", "visits", "serialize"):
-            lines.append(json.dumps({"op": op, "body": b}))
-    out = subprocess.run([a.model], input="\n".join(lines) + "\n", capture_output=True, text=True).stdout.split("\n")
-    out = [json.loads(l) for l in out if l.strip()]
-    assert len(out) == len(lines), (len(out), len(lines))
-    mism = 0; hangs = 0
-    stats = {"accepted": 0, "gate-outside": 0, "measure-without-prepare": 0, "m->p-in-loop": 0, "traces": 0, "visits": 0}
-    def report(kind, p, model, got):
-        nonlocal mism
-        mism += 1
-        if mism <= 10:
-            print(f"MISMATCH [{kind}]\n--- program\nregister r[{NQ}]\n{jq(p)}\n--- model: {model}\n--- real:  {got}\n")
-    for i, p in enumerate(progs):
-        md, mv, ms = (o.get("out", o) for o in out[3 * i: 3 * i + 3])
-        src = f"register r[{NQ}]\n" + jq(p) + "\n"
-        r = real(src, a.timeout)
-        if r.get("hang"):
-            hangs += 1
-            print(f"HANG of the real code (> {a.timeout}s)\n--- program\n{src}--- model discover: {md}  visits: {mv}\n")
-            continue
-        # discover
-        if "err" in md:
-            exp = {"err": md["err"]}
-        else:
-            exp = {"ok": md["ok"]}
-            # model-internal consistency (also proved): traces = flat-order pairs, rule accepted
-            if md["pairs"] != md["ok"] or md["bracketed"] is not True: report("model discover vs spec", p, md, None)
-        if exp != r["discover"]: report("discover", p, exp, r["discover"])
-        if "err" in md:
-            stats[md["err"]] += 1
-            if r["visits"] != {"err": md["err"]}: report("run rejects", p, md, r["visits"])
-            if mv.get("spec_err") is None: report("model: rule accepted but discover rejects", p, mv, None)
-            continue
-        stats["accepted"] += 1; stats["traces"] += len(md["ok"])
-        # visits
-        if mv["visits"] != r["visits"]: report("visits", p, mv["visits"], r["visits"])
-        if not (mv["visits"] == mv["spec"] == mv["exec"]): report("model visits vs spec", p, mv, None)
-        if r.get("nsub") != len(md["ok"]): report("number of subcircuits", p, len(md["ok"]), r.get("nsub"))
-        stats["visits"] += len(r["visits"]) if isinstance(r["visits"], list) else 0
-        # serialize
-        if ms["ok"] != r["serialize"]: report("serialize", p, ms["ok"], r["serialize"])
-        if ms["ok"] != ms["spec"]: report("model serialize vs spec", p, ms, None)
-    print(f"cases {len(progs)}  mismatches {mism}  hangs {hangs}  {stats}")
-    sys.exit(0 if mism == 0 and hangs == 0 else 1)
+    res = run(a.seed, a.n, a.model, a.thorough)
+    bad = 0
+    for kind in ("corr", "oracle"):
+        for name, d in res[kind].items():
+            lst = d["disagreements"] if kind == "corr" else d["failures"]
+            bad += len(lst)
+            print(f"{kind:6} {name:28} cases {d['cases']:6}  {'disagreements' if kind == 'corr' else 'failures'} {len(lst)}")
+            for x in lst[:3]:
+                print("   ", json.dumps({k: v for k, v in x.items() if k != "case"}), "\n    program:\n" + x["case"]["src"])
+    print("distribution", res["distribution"], "nontrivial", res["nontrivial"])
+    sys.exit(0 if bad == 0 else 1)
+
 
 if __name__ == "__main__":
     main()
